@@ -5,7 +5,7 @@ D=/var/tmp/mutrepo.$$
 rsync -a --exclude target --exclude .git /repo/ $D/
 (cd $D && patch -p1 -s < $P) || { echo "patch failed"; rm -rf $D; exit 3; }
 for prop in "$@"; do
-  out=$(cd /verif && VERIF_REPO=$D ./check $prop 2>&1 | grep -E "^(VIOLATION|UNDECIDED|OK|KNOWN)" | head -3)
+  out=$(cd /verif && VERIF_REPO=$D VERIF_EVIDENCE_DIR=$D/.evidence VERIF_REPLAY_DIR=/verif/replay ./check $prop 2>&1 | grep -E "^(VIOLATION|UNDECIDED|OK|KNOWN)" | head -3)
   echo "$prop: $out"
 done
 rm -rf $D
